@@ -15,6 +15,13 @@ ROOT = os.path.dirname(os.path.dirname(os.path.abspath(__file__)))
 COQ = os.path.join(ROOT, "coq")
 sys.path.insert(0, os.path.join(ROOT, "tools"))
 
+# coqchk -o lists the axioms of every LOADED library, used or not: Psatz (nia/lia) loads the stdlib Reals,
+# whose three axioms therefore appear although no property theorem depends on them (Print Assumptions).
+COQCHK_LIBRARY_AXIOMS = {
+    "Coq.Logic.FunctionalExtensionality.functional_extensionality_dep",
+    "Coq.Reals.ClassicalDedekindReals.sig_not_dec",
+    "Coq.Reals.ClassicalDedekindReals.sig_forall_dec",
+}
 ALLOWED_AXIOMS = set()   # target: none. Names of stdlib axioms would be listed here and in DESIGN.md §9.
 FORBIDDEN = re.compile(r"\b(Admitted|admit|Axiom|Parameter|Conjecture|Admit Obligations)\b|Unset Guard|bypass_check|type-in-type|impredicative-set")
 
@@ -141,7 +148,7 @@ def forbidden_scan(pid):
     return bad
 
 
-def build_proofs(pid, clean=False):
+def build_proofs(pid, clean=False, coqchk=False):
     """returns dict(ok, obligations, discharged, axioms, error, theorem)"""
     ensure_makefile()
     res = dict(ok=False, obligations=0, discharged=0, axioms={}, error="", theorem=None)
@@ -194,6 +201,20 @@ def build_proofs(pid, clean=False):
                 res["theorem"] = n
     res["discharged"] = discharged
     res["ok"] = discharged == len(names) and len(names) > 0
+    if res["ok"] and coqchk:
+        # independent re-check of the compiled closure (thorough tier)
+        rc, out, err = sh(f"timeout 2400 coqchk -silent -o -Q . MX MX.Props.{pid} 2>&1", cwd=COQ)
+        txt = out + err
+        m = re.search(r"\* Axioms:(.*?)\n\s*\n", txt, re.S)
+        listed = [a.strip() for a in (m.group(1).split("\n") if m else []) if a.strip() and a.strip() != "<none>"]
+        res["coqchk"] = dict(exit=rc, axioms_of_loaded_libraries=listed)
+        clean_flags = all(re.search(re.escape(k) + r":\s*<none>", txt) for k in
+                          ("relying on type-in-type", "relying on unsafe (co)fixpoints", "positivity is assumed"))
+        if rc != 0 or not clean_flags or any(a not in COQCHK_LIBRARY_AXIOMS for a in listed):
+            res["ok"] = False
+            res["discharged"] = 0
+            res["error"] = "coqchk: " + txt[-1500:]
+            res["theorem"] = f"coqchk MX.Props.{pid}"
     return res
 
 
@@ -265,7 +286,7 @@ def run_check(pid, tier, seed, replay=None):
     ok_h, hout = build_harness()
     if not ok_h:
         problems.append(("harness-build", hout[-1500:], "harness"))
-    proofs = build_proofs(pid, clean=(tier == "thorough")) if ok_tie else dict(ok=False, obligations=len(theorem_names(pid)), discharged=0, axioms={}, error=msg, theorem="Gen/Params.v")
+    proofs = build_proofs(pid, clean=(tier == "thorough"), coqchk=(tier == "thorough")) if ok_tie else dict(ok=False, obligations=len(theorem_names(pid)), discharged=0, axioms={}, error=msg, theorem="Gen/Params.v")
     if not proofs["ok"]:
         problems.append(("proof", proofs["error"], proofs.get("theorem") or f"Props/{pid}.v"))
 
@@ -341,6 +362,8 @@ def run_check(pid, tier, seed, replay=None):
             trusted_base=[
                 "Coq 8.16.1 kernel incl. vm_compute (no native_compute)",
                 "axioms reported by Print Assumptions: " + (", ".join(axioms_used) if axioms_used else "none (Closed under the global context)"),
+                *(["coqchk -o on the compiled closure: exit %d; axioms of loaded libraries (Psatz loads Reals; none used by the property theorems): %s"
+                   % (proofs["coqchk"]["exit"], ", ".join(proofs["coqchk"]["axioms_of_loaded_libraries"]) or "none")] if proofs.get("coqchk") else []),
                 "tools/extract.py (constants regenerated from /repo into Gen/Params.v)",
                 "harness/src/main.rs (mxvm executor over multiversx-chain-vm 0.10.0 debug VM, real contract code by path dependency)",
                 "tools/*.py (generators, observers, monitors, Gallina case emission, output parsing)",
